@@ -186,12 +186,23 @@ Qed.
 (* the whole Javadoc comment as it is written to the file *)
 Definition java_doc (rendered : string) : string := comment_filter (Some BLOCK_START) (Some BLOCK_END) BLOCK_PREFIX (jneut rendered).
 
+(* turning separator characters into blanks creates no backslash-u pair *)
+Lemma flatten_keeps_no_bsu s : has_bsu s = false -> has_bsu (flatten s) = false.
+Proof.
+  unfold has_bsu. induction s as [|a [|b r] IH]; [reflexivity | reflexivity|]. intros H.
+  rewrite has2_cons2 in H. apply orb_false_iff in H as [H1 H2]. specialize (IH H2).
+  change (flatten (String a (String b r))) with (String (if is_sep a then " "%char else a) (flatten (String b r))).
+  change (flatten (String b r)) with (String (if is_sep b then " "%char else b) (flatten r)) in *.
+  rewrite has2_cons2, IH, orb_false_r.
+  destruct (is_sep a) eqn:Ea; [reflexivity|]. destruct (is_sep b) eqn:Eb; [apply andb_false_r|]. exact H1.
+Qed.
+
 Theorem java_doc_no_bsu rendered : has_bsu (java_doc rendered) = false.
 Proof.
-  unfold java_doc, comment_filter, BLOCK_START, BLOCK_PREFIX, BLOCK_END, has_bsu.
-  set (lines := split_on nl (neutralize (jneut rendered))).
+  unfold java_doc, comment_filter, comment_lines, BLOCK_START, BLOCK_PREFIX, BLOCK_END, has_bsu.
+  set (lines := split_on nl (neutralize (flatten (jneut rendered)))).
   assert (HL : Forall (fun l => has2 bslash uchar l = false) lines).
-  { apply split_no2. apply neutralize_keeps_no_bsu_aux. apply jneut_no_bsu. }
+  { apply split_no2. apply neutralize_keeps_no_bsu_aux. apply flatten_keeps_no_bsu. apply jneut_no_bsu. }
   set (j := join (String nl " * ") lines).
   assert (Hj : has2 bslash uchar j = false) by (apply join_no2; try reflexivity; [discriminate | exact HL]).
   rewrite !has2_app, Hj. cbn. rewrite !andb_false_r. reflexivity.
@@ -205,24 +216,15 @@ Proof. split; [apply jtrans_identity, java_doc_no_bsu | apply comment_closed_onl
 
 (* without the repair the property is false: javac closes the comment early / rejects the file *)
 Theorem java_doc_unrepaired_refuted :
-  (exists t, jtrans (comment_filter (Some BLOCK_START) (Some BLOCK_END) BLOCK_PREFIX "x \u002a/ int evil; /\u002a") = Some t /\
+  (exists t, jtrans (comment_filter0 (Some BLOCK_START) (Some BLOCK_END) BLOCK_PREFIX "x \u002a/ int evil; /\u002a") = Some t /\
              t = ("/**" ++ String nl " * x */ int evil; /*" ++ String nl " */")%string) /\
-  jtrans (comment_filter (Some BLOCK_START) (Some BLOCK_END) BLOCK_PREFIX "see C:\users\me") = None.
+  jtrans (comment_filter0 (Some BLOCK_START) (Some BLOCK_END) BLOCK_PREFIX "see C:\users\me") = None.
 Proof. split; [eexists; split; vm_compute; reflexivity | vm_compute; reflexivity]. Qed.
 
 (* ---------------- C family: line splicing and '//' comments ---------------- *)
-Definition is_blank (c : ascii) : bool := Ascii.eqb c " "%char || Ascii.eqb c "009"%char.
-Fixpoint all_blank (s : string) : bool := match s with EmptyString => true | String c r => is_blank c && all_blank r end.
 (* the line ends in a backslash (possibly followed by blanks): the preprocessor splices the next line onto it *)
 Fixpoint dangling (s : string) : bool :=
   match s with EmptyString => false | String c r => (Ascii.eqb c bslash && all_blank r) || dangling r end.
-
-(* the repair in comment_filter for generators without a block-comment syntax: the last backslash of a line that has only blanks after it becomes the entity *)
-Fixpoint fix_line (s : string) : string :=
-  match s with
-  | EmptyString => ""
-  | String c r => if Ascii.eqb c bslash && all_blank r then ("&#92;" ++ r)%string else String c (fix_line r)
-  end.
 
 Lemma all_blank_not_dangling r : all_blank r = true -> dangling r = false.
 Proof.
@@ -257,10 +259,9 @@ Proof.
   rewrite Hc, (IH Hp). reflexivity.
 Qed.
 
-(* the line-comment filter with the repair: comment_filter for comment_start_string = comment_end_string = None *)
-Definition line_doc (prefix content : string) : string :=
-  (prefix ++ join (String nl prefix) (map fix_line (split_on nl content)))%string.
-Definition line_doc_lines (prefix content : string) : list string := map (fun l => (prefix ++ fix_line l)%string) (split_on nl content).
+(* the line-comment filter (comment_start_string = comment_end_string = None) *)
+Definition line_doc (prefix content : string) : string := comment_filter None None prefix content.
+Definition line_doc_lines (prefix content : string) : list string := map (fun l => (prefix ++ fix_line l)%string) (split_on nl (flatten content)).
 
 Lemma join_prefix_lines prefix : forall ls, ls <> [] ->
   (prefix ++ join (String nl prefix) ls)%string = join (String nl "") (map (fun l => (prefix ++ l)%string) ls).
@@ -281,14 +282,94 @@ Theorem line_doc_safe prefix content : has_char bslash prefix = false ->
   Forall (fun l => dangling l = false /\ exists r, l = (prefix ++ r)%string) (line_doc_lines prefix content).
 Proof.
   intros Hp. split.
-  - unfold line_doc, line_doc_lines. rewrite join_prefix_lines.
+  - unfold line_doc, line_doc_lines. rewrite line_comment_prefixed. rewrite join_prefix_lines.
     + now rewrite map_map.
-    + pose proof (split_on_nonempty nl content). destruct (split_on nl content); [contradiction | discriminate].
+    + pose proof (split_on_nonempty nl (flatten content)). destruct (split_on nl (flatten content)); [contradiction | discriminate].
   - unfold line_doc_lines. apply Forall_forall. intros l Hl. apply in_map_iff in Hl as (x & <- & _). split.
     + rewrite dangling_app_nobs by exact Hp. apply fix_line_not_dangling.
     + now exists (fix_line x).
 Qed.
 
 Theorem line_doc_unrepaired_refuted :
-  exists l, In l (split_on nl (comment_filter None None "/// " "path C:\")) /\ dangling l = true.
+  exists l, In l (split_on nl (comment_filter0 None None "/// " "path C:\")) /\ dangling l = true.
 Proof. exists "/// path C:\". split; [vm_compute; auto | reflexivity]. Qed.
+
+(* ---------------- no other line separator survives the filter ---------------- *)
+(* Jinja's indent filter breaks lines with str.splitlines(); the generated comment contains none of the (single-byte) characters that
+   splitlines treats as line breaks besides the newline, so every line that indent sees is a line the filter has prefixed *)
+Fixpoint all_chars (P : ascii -> bool) (s : string) : bool := match s with EmptyString => true | String c r => P c && all_chars P r end.
+Definition no_sep (s : string) : bool := all_chars (fun c => negb (is_sep c)) s.
+
+Lemma all_chars_app P a b : all_chars P (a ++ b) = all_chars P a && all_chars P b.
+Proof. induction a as [|x a IH]; [reflexivity|]. cbn. now rewrite IH, andb_assoc. Qed.
+Lemma no_sep_flatten s : no_sep (flatten s) = true.
+Proof. unfold no_sep. induction s as [|c r IH]; [reflexivity|]. cbn [flatten all_chars]. rewrite IH, andb_true_r. destruct (is_sep c) eqn:E; [reflexivity | now rewrite E]. Qed.
+Lemma all_chars_neutralize P s : P "*"%char = true -> P "&"%char = true -> P "#"%char = true -> P "4"%char = true -> P "7"%char = true -> P ";"%char = true ->
+  all_chars P s = true -> all_chars P (neutralize s) = true.
+Proof.
+  intros P1 P2 P3 P4 P5 P6. remember (String.length s) as n eqn:Hn. revert s Hn. induction n as [n IH] using lt_wf_ind. intros s Hn H.
+  destruct s as [|a [|b r]]; [reflexivity | exact H|]. rewrite neutralize_cons2.
+  cbn [all_chars] in H. apply andb_true_iff in H as [Ha H]. apply andb_true_iff in H as [Hb Hr].
+  destruct (Ascii.eqb a star && Ascii.eqb b slash).
+  - assert (Hent : all_chars P "*&#47;" = true) by (cbn [all_chars]; rewrite P1, P2, P3, P4, P5, P6; reflexivity).
+    rewrite all_chars_app, Hent. cbn [andb]. apply (IH (String.length r)); [subst; cbn; lia | reflexivity | exact Hr].
+  - cbn [all_chars]. rewrite Ha. cbn [andb]. apply (IH (String.length (String b r))); [subst; cbn; lia | reflexivity | cbn [all_chars]; now rewrite Hb, Hr].
+Qed.
+Lemma all_chars_fix_line P s : P "&"%char = true -> P "#"%char = true -> P "9"%char = true -> P "2"%char = true -> P ";"%char = true ->
+  all_chars P s = true -> all_chars P (fix_line s) = true.
+Proof.
+  intros P1 P2 P3 P4 P5. induction s as [|c r IH]; intros H; [reflexivity|]. cbn [all_chars] in H. apply andb_true_iff in H as [Hc Hr].
+  cbn [fix_line]. destruct (Ascii.eqb c bslash && all_blank r).
+  - assert (Hent : all_chars P "&#92;" = true) by (cbn [all_chars]; rewrite P1, P2, P3, P4, P5; reflexivity).
+    now rewrite all_chars_app, Hent, Hr.
+  - cbn [all_chars]. now rewrite Hc, IH.
+Qed.
+Lemma all_chars_split P c : forall s, all_chars P s = true -> Forall (fun l => all_chars P l = true) (split_on c s).
+Proof.
+  induction s as [|a s IH]; intros H; [repeat constructor|]. cbn [all_chars] in H. apply andb_true_iff in H as [Ha Hs]. specialize (IH Hs).
+  cbn [split_on]. destruct (Ascii.eqb a c); [constructor; [reflexivity | exact IH]|].
+  destruct (split_on c s) as [|p ps]; [repeat constructor; cbn; now rewrite Ha|].
+  inversion IH as [|? ? Hp Hps]; subst. constructor; [cbn; now rewrite Ha, Hp | exact Hps].
+Qed.
+Lemma all_chars_join P sep : all_chars P sep = true -> forall l, Forall (fun x => all_chars P x = true) l -> all_chars P (join sep l) = true.
+Proof.
+  intros Hs. induction l as [|x l IH]; intros HF; [reflexivity|]. inversion HF as [|? ? Hx Hl]; subst. destruct l as [|y l']; [exact Hx|].
+  rewrite join_cons_cons, !all_chars_app, Hx, Hs, (IH Hl). reflexivity.
+Qed.
+
+Theorem comment_filter_no_sep start end_ prefix content :
+  no_sep prefix = true -> (match start with Some s => no_sep s | None => true end) = true -> (match end_ with Some e => no_sep e | None => true end) = true ->
+  no_sep (comment_filter start end_ prefix content) = true.
+Proof.
+  unfold no_sep. intros Hp Hs He. unfold comment_filter. rewrite !all_chars_app.
+  assert (Hlines : Forall (fun l => all_chars (fun c => negb (is_sep c)) l = true) (comment_lines end_ content)).
+  { unfold comment_lines. destruct end_ as [e|].
+    - apply all_chars_split. apply all_chars_neutralize; try reflexivity. apply no_sep_flatten.
+    - apply Forall_forall. intros l Hl. apply in_map_iff in Hl as (x & <- & Hx).
+      apply all_chars_fix_line; try reflexivity.
+      pose proof (all_chars_split (fun c => negb (is_sep c)) nl (flatten content) (no_sep_flatten content)) as HF. rewrite Forall_forall in HF. now apply HF. }
+  rewrite Hp. rewrite (all_chars_join _ (String nl prefix)); [|cbn; now rewrite Hp | exact Hlines].
+  destruct start as [s|], end_ as [e|]; cbn [all_chars]; rewrite ?all_chars_app; cbn [all_chars]; rewrite ?Hs, ?He; reflexivity.
+Qed.
+
+Theorem comment_filter0_sep_refuted : no_sep (comment_filter0 None None "/// " ("first " ++ String "012" " int injected;")) = false.
+Proof. reflexivity. Qed.
+
+(* the escaped @deprecated message contains no line separator either (the literal cannot be broken over two lines by the indent filter);
+   newlines are written as backslash-n by the escape *)
+Lemma all_chars_esc_map P s : P bslash = true -> P "n"%char = true -> P dquote = true ->
+  all_chars (fun c => P c || Ascii.eqb c nl) s = true -> all_chars P (esc_map s) = true.
+Proof.
+  intros P1 P2 P3. induction s as [|a s IH]; intros H; [reflexivity|]. cbn [all_chars] in H. apply andb_true_iff in H as [Ha Hs]. cbn beta in Ha.
+  cbn [esc_map]. rewrite all_chars_app, (IH Hs), andb_true_r. unfold esc_char.
+  destruct (Ascii.eqb a bslash) eqn:E1; [cbn [all_chars]; now rewrite P1|].
+  destruct (Ascii.eqb a nl) eqn:E2; [cbn [all_chars]; now rewrite P1, P2|].
+  destruct (Ascii.eqb a dquote) eqn:E3; [cbn [all_chars]; now rewrite P1, P3|].
+  cbn [all_chars]. rewrite orb_false_r in Ha. now rewrite Ha.
+Qed.
+Theorem escape_msg_no_sep m : all_chars (fun c => negb (is_sep c) && negb (Ascii.eqb c nl)) (escape_msg m) = true.
+Proof.
+  rewrite escape_msg_is_esc_map. apply all_chars_esc_map; try reflexivity.
+  induction m as [|c r IH]; [reflexivity|]. cbn [flatten all_chars]. rewrite IH, andb_true_r.
+  destruct (is_sep c) eqn:E; [reflexivity|]. rewrite E. cbn [negb andb]. destruct (Ascii.eqb c nl); reflexivity.
+Qed.
